@@ -30,6 +30,8 @@ var tmpls = []vlib.Tmpl{
 	vlib.T("plain/l1/sub/v"), vlib.T("plain/l1/oper"), vlib.T("plain/l2a/v"), vlib.T("plain/ifc/v"), vlib.T("plain/ifc-ext/v"), vlib.T("state/counter"), vlib.T("state/oper"),
 	vlib.T("plain/l1/descr"), vlib.T("plain/l1/mtu"),
 	vlib.T("state/oper-reason"), vlib.T("state/nbr/v"), vlib.T("state/nbr/v"),
+	// (appended) several leaf-lists side by side in one container
+	vlib.T("types/ll-i8"), vlib.T("types/ll-u8"), vlib.T("types/ll-str"),
 }
 var uni = &vlib.Universe{Name: "sync", Tmpls: tmpls}
 var palette = []string{"eth1", "eth10", "eth1/1"}
